@@ -19,6 +19,8 @@ pub struct Method {
     pub typed_receiver: bool,
     /// no written return type: the effect is observable through the trace only
     pub ret_unit: bool,
+    /// the bounds of the method's generic parameter are written in a where clause
+    pub where_form: bool,
 }
 
 impl Method {
@@ -31,8 +33,13 @@ impl Method {
         if self.uses_u {
             ps.push("u: U".into());
         }
-        let g = if self.has_gen { format!("<V: ::core::fmt::Debug{}>", if self.is_async { " + Send + Sync" } else { "" }) } else { String::new() };
-        format!("{}fn {}{g}({}){}", if self.is_async { "async " } else { "" }, self.name, ps.join(", "), if self.ret_unit { "" } else { " -> String" })
+        let vb = format!("V: ::core::fmt::Debug{}", if self.is_async { " + Send + Sync" } else { "" });
+        let (g, w) = match (self.has_gen, self.where_form) {
+            (false, _) => (String::new(), String::new()),
+            (true, false) => (format!("<{vb}>"), String::new()),
+            (true, true) => ("<V>".to_string(), format!(" where {vb}")),
+        };
+        format!("{}fn {}{g}({}){}{w}", if self.is_async { "async " } else { "" }, self.name, ps.join(", "), if self.ret_unit { "" } else { " -> String" })
     }
 
     fn body(&self) -> String {
@@ -112,7 +119,7 @@ pub fn gen_case(t: &mut Tape) -> Case {
                 }
             }
             let has_gen = params.iter().any(|p| p.vt == VT::Gen);
-            Method { name: names[i].clone(), tag: format!("M{i}"), is_async: any_async && t.chance(2, 3), params, has_gen, uses_u: (generic_trait || lifetime_trait) && t.flip(), typed_receiver: t.chance(1, 8), ret_unit: t.chance(1, 5) }
+            Method { name: names[i].clone(), tag: format!("M{i}"), is_async: any_async && t.chance(2, 3), params, has_gen, uses_u: (generic_trait || lifetime_trait) && t.flip(), typed_receiver: t.chance(1, 8), ret_unit: t.chance(1, 5), where_form: t.flip() }
         };
         methods.push(m);
     }
@@ -132,6 +139,14 @@ pub fn gen_case(t: &mut Tape) -> Case {
     } else {
         ("", "")
     };
+    // an extra method that returns a borrow: from the receiver (elided / named lifetime) or from an argument
+    let borrow_kind: Option<usize> = if t.chance(1, 3) { Some(t.choose(3)) } else { None };
+    let (borrow_decl, borrow_impl) = match borrow_kind {
+        Some(0) => ("    fn tagline(&self, n: u32) -> &str;\n", "    fn tagline(&self, n: u32) -> &str { rt::trace(format!(\"TL|{}|{}\", rt::addr(self), n)); \"tl\" }\n"),
+        Some(1) => ("    fn tagline<'a>(&'a self, n: u32) -> &'a str;\n", "    fn tagline<'a>(&'a self, n: u32) -> &'a str { rt::trace(format!(\"TL|{}|{}\", rt::addr(self), n)); \"tl\" }\n"),
+        Some(_) => ("    fn tagline<'a>(&self, n: &'a str) -> &'a str;\n", "    fn tagline<'a>(&self, n: &'a str) -> &'a str { rt::trace(format!(\"TL|{}|{}\", rt::addr(self), n)); n }\n"),
+        None => ("", ""),
+    };
     let mut opts: Vec<String> = vec![];
     match selector {
         1 => opts.push("delegate_by = Self".into()),
@@ -147,7 +162,9 @@ pub fn gen_case(t: &mut Tape) -> Case {
     }
     let perm = t.permutation(opts.len());
     let attr: String = perm.into_iter().map(|i| opts[i].clone()).collect::<Vec<_>>().join(", ");
-    let tg = if generic_trait { "<U: ::core::fmt::Debug + Send + Sync + 'static>" } else if lifetime_trait { "<'t>" } else { "" };
+    let trait_where = generic_trait && t.flip();
+    let tg = if generic_trait { if trait_where { "<U>" } else { "<U: ::core::fmt::Debug + Send + Sync + 'static>" } } else if lifetime_trait { "<'t>" } else { "" };
+    let tw = if trait_where { " where U: ::core::fmt::Debug + Send + Sync + 'static" } else { "" };
     let targ = if generic_trait { "<i64>" } else if lifetime_trait { "<'static>" } else { "" };
     // with a lifetime-generic trait the extra trailing parameter is `u: &'t str`
     let (u_decl, u_impl) = if lifetime_trait { ("u: &'t str", "u: &'static str") } else { ("u: U", "u: i64") };
@@ -170,7 +187,7 @@ pub fn gen_case(t: &mut Tape) -> Case {
     if dynamic && t.flip() {
         src.push_str(if selector == 3 { "use ::std::borrow::Borrow;\n" } else { "use ::std::convert::AsRef;\nuse ::std::ops::Deref;\n" });
     }
-    src.push_str(&format!("/*GEN*/ #[::entrait::entrait({attr})]\n{at}pub trait Tr{tg}{sup_src} {{\n"));
+    src.push_str(&format!("/*GEN*/ #[::entrait::entrait({attr})]\n{at}pub trait Tr{tg}{sup_src}{tw} {{\n"));
     for m in &methods {
         src.push_str(&format!("    {};\n", m.sig(false).replace("u: U", u_decl)));
     }
@@ -179,6 +196,7 @@ pub fn gen_case(t: &mut Tape) -> Case {
         src.push_str(&format!("    {q}fn dflt(&self, x: i32, y: i32) -> String {{ {y}let __r = format!(\"DFLT|{{}}|{{}},{{}}\", rt::addr(self), x, y); rt::trace(__r.clone()); __r }}\n"));
     }
     src.push_str(assoc_decl);
+    src.push_str(borrow_decl);
     src.push_str("}\n");
     // recording providers: Rec (Sync) and NsRec (!Sync)
     // a !Sync provider cannot implement a trait whose async methods return Send futures borrowing `&self`
@@ -190,6 +208,7 @@ pub fn gen_case(t: &mut Tape) -> Case {
             src.push_str(&format!("    {} {}\n", m.sig(false).replace("u: U", u_impl), m.body()));
         }
         src.push_str(assoc_impl);
+        src.push_str(borrow_impl);
         src.push_str("}\n");
     }
     // application types per selector
@@ -229,6 +248,7 @@ pub fn gen_case(t: &mut Tape) -> Case {
                 src.push_str(&format!("    {} {}\n", m.sig(false).replace("u: U", u_impl), m.body()));
             }
             src.push_str(assoc_impl);
+            src.push_str(borrow_impl);
             src.push_str("}\n");
         }
     }
@@ -237,17 +257,18 @@ pub fn gen_case(t: &mut Tape) -> Case {
         let mut sp = src.clone();
         match selector {
             0 | 1 => {
-                sp.push_str(&format!("pub struct BorrowedApp<'a> {{ pub x: &'a u8 }}\nimpl<'a> Sup for BorrowedApp<'a> {{}}\n{at}impl<'a> Tr{targ} for BorrowedApp<'a> {{\n"));
+                sp.push_str(&format!("pub struct BorrowedApp<'b> {{ pub x: &'b u8 }}\nimpl<'b> Sup for BorrowedApp<'b> {{}}\n{at}impl<'b> Tr{targ} for BorrowedApp<'b> {{\n"));
                 for m in &methods {
                     sp.push_str(&format!("    {} {}\n", m.sig(false).replace("u: U", u_impl), m.body()));
                 }
                 sp.push_str(assoc_impl);
+                sp.push_str(borrow_impl);
                 sp.push_str("}\n");
             }
             _ => {
                 let (tr, f) = if selector == 2 { ("AsRef", "as_ref") } else { ("::core::borrow::Borrow", "borrow") };
                 sp.push_str(&format!(
-                    "pub struct BorrowedApp<'a> {{ pub rec: Rec, pub x: &'a u8 }}\nimpl<'a> {tr}<{dyn_ty}> for BorrowedApp<'a> {{ fn {f}(&self) -> &({dyn_ty} + 'static) {{ &self.rec }} }}\n"
+                    "pub struct BorrowedApp<'b> {{ pub rec: Rec, pub x: &'b u8 }}\nimpl<'b> {tr}<{dyn_ty}> for BorrowedApp<'b> {{ fn {f}(&self) -> &({dyn_ty} + 'static) {{ &self.rec }} }}\n"
                 ));
             }
         }
@@ -288,6 +309,15 @@ pub fn gen_case(t: &mut Tape) -> Case {
         src.push_str("/*GEN*/ rt::expect_eq(&mut fails, \"defaulted method: result through Impl<T> vs the provider (which inherits the default body)\", &via, &direct);\n");
         src.push_str("/*GEN*/ rt::expect_eq(&mut fails, \"defaulted method: call trace through Impl<T> vs the provider\", &t_via, &t_direct);\n");
         src.push_str("        if t_direct.len() != 1 { fails.push(format!(\"HARNESS: defaulted method traced {} entries on the provider\", t_direct.len())); }\n");
+        src.push_str("    }\n");
+    }
+    if let Some(k) = borrow_kind {
+        let arg = if k == 2 { "\"arg\"" } else { "77" };
+        src.push_str("    {\n        let _ = rt::take();\n");
+        src.push_str(&format!("        let direct = Tr::tagline(provider(&app), {arg}).to_string();\n        let t_direct = rt::take();\n"));
+        src.push_str(&format!("/*GEN*/ let via = Tr::tagline(&app, {arg}).to_string();\n        let t_via = rt::take();\n"));
+        src.push_str("/*GEN*/ rt::expect_eq(&mut fails, \"borrowed-return method: result through Impl<T> vs the provider\", &via, &direct);\n");
+        src.push_str("/*GEN*/ rt::expect_eq(&mut fails, \"borrowed-return method: call trace\", &t_via, &t_direct);\n");
         src.push_str("    }\n");
     }
     if assoc {
@@ -331,6 +361,12 @@ pub fn gen_case(t: &mut Tape) -> Case {
     if assoc {
         classes.push("associated_type");
     }
+    if let Some(k) = borrow_kind {
+        classes.push(["borrowed_return:receiver_elided", "borrowed_return:receiver_named", "borrowed_return:argument_named"][k]);
+    }
+    if trait_where || methods.iter().any(|m| m.has_gen && m.where_form) {
+        classes.push("where_clause");
+    }
     if any_async {
         classes.push(if use_async_trait { "async_with_async_trait" } else { "async_static" });
     }
@@ -354,7 +390,7 @@ pub const TAPE_LEN: usize = 128;
 
 pub fn run(ctx: &mut Ctx) {
     ctx.rule = "cases = hand-written-style traits with 1..5 `&self` methods (repeated signatures, adjacent equal types, generic trait parameter, generic methods for static selectors, \
-                supertraits, wildcard parameters, &mut arguments, sync/async with and without async_trait) x selector {default, Self, ref, Borrow} x options; a recording provider logs \
+                supertraits, where clauses on the trait and on methods, wildcard parameters, &mut arguments, a defaulted method, an associated type, a borrowed-return method, sync/async with and without async_trait) x selector {default, Self, ref, Borrow} x options; a recording provider logs \
                 (method tag, provider address, arguments); each method is called on the provider and through Impl<App> with distinct argument values and results/traces are compared; \
                 probes: Impl<App> implements the trait, Impl<NoProvider> and Impl<!Sync app> do not, Impl<Sync + !Send app> does, and (compile probe on the first 160 / 800 cases) Impl<app borrowing for 'a> does not; non-trivial = >=2 same-signature methods, >=2 same-typed args, generic, or ref/Borrow; \
                 distinct = distinct program text"
